@@ -111,7 +111,8 @@ def evalcopy(names, props):
     sh(["git", "-C", "/repo", "worktree", "add", "--detach", rp, "HEAD"])
     sh(["rsync", "-a", "--delete", "--exclude", "work", "--exclude", ".git", ROOT + "/", vr + "/"])
     ct = os.path.join(vr, "harness", "Cargo.toml")
-    open(ct, "w").write(open(ct).read().replace('path = "/repo"', f'path = "{rp}"'))
+    txt = open(ct).read().replace('path = "/repo"', f'path = "{rp}"')
+    open(ct, "w").write(txt)
     env = dict(ENV, VERIF_REPO=rp, QVNT_REPO=rp,
                VERIF_EVIDENCE_DIR=os.path.join(vr, "work", "seed_evidence"), VERIF_REPLAYS_DIR=os.path.join(vr, "work", "seed_replays"))
     if not props:
